@@ -962,7 +962,13 @@ class DataFieldBase(FieldBase, metaclass=ABCMeta):
         op = self.grid.make_operator_no_bc(
             operator_info, backend=backend_impl, **kwargs
         )
-        backend_impl._apply_operator(op, self._data_full, out=out.data)
+        if np.may_share_memory(out.data, self._data_full):
+            # operators cannot work in-place => store the result in a temporary array
+            result = np.empty_like(out.data)
+            backend_impl._apply_operator(op, self._data_full, out=result)
+            out.data = result
+        else:
+            backend_impl._apply_operator(op, self._data_full, out=out.data)
 
         return out
 
